@@ -79,7 +79,8 @@ Lemma heap_switch st L : m_heap (switch_layout st L) = m_heap st.
 Proof.
   unfold switch_layout. destruct L; [reflexivity|].
   match goal with |- context [if ?b then _ else _] => destruct b end; [reflexivity|].
-  now rewrite heap_prepare, heap_sync_loaded.
+  rewrite heap_prepare. destruct LAYOUT_SWITCHES_SYNC_THE_LOADED_LAYOUT; [apply heap_sync_loaded|].
+  unfold sync_running. destruct (frames st) as [|f r]; [reflexivity|]. destruct (f_lay f); reflexivity.
 Qed.
 Lemma heap_call_enter st L : m_heap (call_enter st L) = m_heap st.
 Proof. unfold call_enter. now rewrite heap_with_frames, heap_switch. Qed.
